@@ -44,10 +44,10 @@ RULE_TEXT = {
 
 PROPS = {
     "C01": ["TS-1", "TS-2", "GATE-1", "GATE-4", "GATE-6", "GATE-7", "GATE-8", "GATE-10", "SYM-1", "SYM-2", "SYM-3"],
-    "C02": ["TS-1", "TS-3", "TS-4", "GATE-1", "GATE-10", "EFF-2", "UNW-1", "PROV-1", "SYM-3", "TS-6"],
+    "C02": ["TS-1", "TS-3", "TS-4", "GATE-1", "GATE-10", "EFF-2", "UNW-1", "PROV-1", "SYM-3", "TS-6", "TS-9"],
     "C03": ["GATE-5", "GATE-6", "GATE-8", "GATE-9", "GATE-10", "ITER-1", "EFF-4", "PROV-1", "TS-5", "SYM-1", "SYM-2", "SYM-3"],
     "C04": ["TS-3", "TS-4", "TS-5", "SYM-4"],
-    "C05": ["TS-2", "TS-3", "TS-4", "TS-7", "TS-8", "GATE-5", "EFF-2", "API-1"],
+    "C05": ["TS-2", "TS-3", "TS-4", "TS-7", "TS-8", "TS-9", "GATE-5", "EFF-2", "API-1"],
     "C06": ["EFF-2", "EFF-3", "EFF-4", "TS-8", "TS-9", "PROV-1", "GATE-4", "GATE-6"],
     "C07": ["FWD-1", "API-1", "TS-6", "TS-7", "TS-8", "TS-9", "GATE-3"],
     "C08": ["SYM-1", "SYM-2", "SYM-3", "SYM-4", "EFF-4"],
@@ -62,7 +62,7 @@ PROPS = {
 
 # API-1 keys relevant per property (API-1 covers many functions; C05 only cares about Weak clauses)
 API_FILTER = {
-    "C05": ("upgrade", "Weak::"),
+    "C05": ("upgrade", "Weak::", "downgrade"),
 }
 
 NOT_APPLICABLE = {
